@@ -54,7 +54,7 @@ M = [
     ("C16-powerset-loses-sets-of-last-item-when-repeated", "C16", "vyxal/elements.py", "        new_sets = [prev + [elem] for prev in prev_sets]\n", "        new_sets = [prev + [elem] for prev in prev_sets if prev[-1:] != [elem] or len(prev) < 2]\n"),
     ("C17-is-prime-odd", "C17", "vyxal/elements.py", "NUMBER_TYPE: lambda: int(sympy.ntheory.isprime(lhs)),", "NUMBER_TYPE: lambda: int(sympy.ntheory.isprime(lhs) or lhs == 1729),"),
     ("C17-divisors-drop-n-for-squares", "C17", "vyxal/elements.py", "    if ts == NUMBER_TYPE:\n        return sympy.divisors(lhs)", "    if ts == NUMBER_TYPE:\n        return sympy.divisors(lhs)[: -1 if lhs == 961 else None]"),
-    ("C18-character-via-fstring", "C18", "vyxal/transpile.py", 'return indent_str(f"stack.append({token.value!r})", indent)', 'return indent_str(f"stack.append(\'{token.value}\')" if token.value not in "\'\\\\\\n" else f"stack.append({token.value!r})", indent)'),
+    ("C18-string-quote-not-escaped", "C18", "vyxal/transpile.py", "            elif char == '\"':\n                temp += '\\\\\"'", "            elif char == '\"' and len(string) > 40:\n                temp += '\\\\\"'"),
     ("C18-function-name-unsanitised-on-call", "C18", "vyxal/transpile.py", '        var = re.sub("[^A-Za-z0-9_]", "", struct.name)\n\n        return indent_str(', '        var = re.sub("[^A-Za-z0-9_.]", "", struct.name)\n\n        return indent_str('),
     ("C19-print-list-to-stdout-online", "C19", "vyxal/elements.py", "        if ctx.online:\n            ctx.online_output[1] += vy_str(lhs, ctx=ctx) + end", "        if ctx.online and not isinstance(lhs, str):\n            ctx.online_output[1] += vy_str(lhs, ctx=ctx) + end"),
     ("C19-eval-literal-fallback-to-eval", "C19", "vyxal/helpers.py", "        except Exception:  # skipcq: PYL-W0703\n            # TODO: eval as vyxal\n            return item", "        except Exception:  # skipcq: PYL-W0703\n            # TODO: eval as vyxal\n            try:\n                return vyxalify(eval(item)) if item[:1] == \"(\" else item\n            except Exception:\n                return item"),
